@@ -39,10 +39,11 @@ def gen_nested_interrupt(rng: random.Random) -> dict:
         {"name": "fin", "kind": "fn", "params": [["decision", None]], "dataOuts": ["verdict"], "body": {"b": "tag", "t": "fin"}}], "bound": []}
     outer = {"name": "g1", "nodes": [{"name": "review", "kind": "graph", "inner": 0},
                                      {"name": "after", "kind": "fn", "params": [["verdict", None]], "dataOuts": ["done"], "body": {"b": "tag", "t": "after"}}], "bound": []}
-    program = [inner, outer]
     if rng.random() < 0.4:
-        outer2 = {"name": "g2", "nodes": [{"name": "top", "kind": "graph", "inner": 1}], "bound": []}
-        program.append(outer2)
+        inner["nodes"][1]["dataOuts"] = ["decision", "notes"]
+    program = [inner, outer]
+    for lvl in range(rng.choice([0, 0, 1, 1, 2])):
+        program.append({"name": f"g{lvl + 2}", "nodes": [{"name": f"top{lvl}", "kind": "graph", "inner": lvl + 1}], "bound": []})
     return {"program": program, "values": [["x", rng.randint(0, 5)]], "nested": True}
 
 
@@ -82,13 +83,15 @@ class C14(Prop):
             if case["nested"] and not case.get("resume_nested"):
                 break   # pause identity only; resuming a nested interrupt is the recorded finding C14-F1
             p = o["pause"]
-            key = p.get("responseKey") or p["outputParam"]
             r = case["responses"][i % len(case["responses"])]
             answers[p["node"]] = r
-            # all outputs of a multi-output interrupt are supplied (the resume path needs every data output)
+            # all outputs of a multi-output interrupt are supplied (the resume path needs every data output), each under the key the
+            # pause reports for it
             outs = p["outputParams"] or [p["outputParam"]]
-            prefix = key[: len(key) - len(p["outputParam"])]
-            supplied = [[prefix + o_, r] for o_ in outs]
+            keys = dict(map(tuple, p.get("responseKeys") or []))
+            supplied = [[keys.get(o_, o_), r] for o_ in outs]
+            if i % 2 == 0:
+                supplied[0][0] = p.get("responseKey") or p["outputParam"]
             if any(k == supplied[0][0] for k, _ in values):
                 break  # the same key is asked for again: no progress (recorded for nested interrupts)
             values = values + supplied
@@ -131,6 +134,14 @@ class C14(Prop):
             want_key = ".".join(p["node"].split("/")[:-1] + [p["outputParam"]]) if depth else p["outputParam"]
             if p.get("responseKey") != want_key:
                 return f"response key {p.get('responseKey')!r}, expected {want_key!r}"
+            prefix = want_key[: len(want_key) - len(p["outputParam"])]
+            want_keys = sorted([o_, prefix + o_] for o_ in spec["dataOuts"])
+            if p.get("responseKeys") != want_keys:
+                return f"response keys {p.get('responseKeys')!r}, expected {want_keys!r}"
+            # what the human is shown: the interrupt's inputs under the names the graph knows them by
+            in_names = [dict(spec.get("inRen", [])).get(q[0], q[0]) for q in spec["params"]]
+            if p["values"] is not None and [k for k, _ in p["values"]] != in_names:
+                return f"pause shows values under {[k for k, _ in p['values']]}, the interrupt's inputs are {in_names}"
             if case["nested"]:
                 want_path = [n["name"] for g in reversed(case["program"][1:]) for n in g["nodes"] if n["kind"] == "graph"]
                 if p["node"].split("/")[:-1] != want_path:
@@ -171,6 +182,8 @@ class C14(Prop):
                 p = m["pause"]
                 parts = p["node"].split("/")
                 m["pause"]["responseKey"] = ".".join(parts[:-1] + [p["outputParam"]]) if len(parts) > 1 else p["outputParam"]
+                pre = ".".join(parts[:-1]) + "." if len(parts) > 1 else ""
+                m["pause"]["responseKeys"] = sorted([o_, pre + o_] for o_ in (p["outputParams"] or [p["outputParam"]]))
             return m
 
         return self._history(case, run)
@@ -182,8 +195,9 @@ class C14(Prop):
             for f in ("status", "values", "error"):
                 if a.get(f) != b.get(f):
                     return f"round {k} {f}: impl={a.get(f)!r} model={b.get(f)!r}"
-            pa = {x: (a["pause"] or {}).get(x) for x in ("node", "outputParam", "value", "outputParams", "values", "responseKey")}
-            pb = {x: (b["pause"] or {}).get(x) for x in ("node", "outputParam", "value", "outputParams", "values", "responseKey")}
+            fields = ("node", "outputParam", "value", "outputParams", "values", "responseKey", "responseKeys")
+            pa = {x: (a["pause"] or {}).get(x) for x in fields}
+            pb = {x: (b["pause"] or {}).get(x) for x in fields}
             if pa != pb:
                 return f"round {k} pause: impl={pa} model={pb}"
             if impl.sort_calls(a["calls"]) != impl.sort_calls(b["calls"]):
